@@ -3138,7 +3138,15 @@ static void build_stmt(WorkList *list, ScopeStack *scopes, ASTNode *stmt, int in
                 emit_literal(list, "; ");
                 emit_literal(list, var);
                 emit_literal(list, "++) ");
+
+                /* The loop variable is a new int binding for the body (like a
+                 * `let`): register it, otherwise a global constant of the same
+                 * name is found instead and its value is inlined for every use
+                 * of the loop variable. The binding ends with the loop. */
+                int saved_symbol_count = env->symbol_count;
+                env_define_var_with_type_info(env, var, TYPE_INT, TYPE_UNKNOWN, NULL, false, create_void());
                 build_stmt(list, scopes, stmt->as.for_stmt.body, indent, env, fn_registry);
+                env->symbol_count = saved_symbol_count;
             } else {
                 /* Fallback for non-range for loops */
                 emit_indent_item(list, indent);
